@@ -91,6 +91,10 @@ func commonMoves(n *Node) (impl []board.Move, refm []ref.Move) {
 	return
 }
 
+func panicData(c *harness.Check) map[string]string {
+	return map[string]string{"check": c.ID, "tier": c.Tier}
+}
+
 // Walk performs a breadth-first closure from the roots to the given depth, de-duplicated on the
 // implementation's position value + side, calling visit on every node (in parallel within a
 // level) and edge on every (node, move, successor) of non-final levels.
@@ -123,28 +127,28 @@ func Walk(c *harness.Check, roots []*Node, depth int, visit func(n *Node), edge 
 				hi = len(frontier)
 			}
 			for _, n := range frontier[lo:hi] {
-				if visit != nil {
-					visit(n)
-				}
-				if last && edge == nil {
-					continue
-				}
-				if last {
-					continue
-				}
-				im, rm := commonMoves(n)
-				for i, m := range im {
-					sp, ok := n.Pos.Move(m)
-					if !ok {
-						continue
+				n := n
+				c.Guard("panic", panicData(c), n.Where(), func() {
+					if visit != nil {
+						visit(n)
 					}
-					succ := &Node{Pos: sp, Turn: n.Turn.Opponent(), Ref: n.Ref.Make(rm[i]), Root: n.Root, Path: n.Path + " " + bridge.Text(m)}
-					c.Transitions.Add(1)
-					if edge != nil {
-						edge(n, m, rm[i], succ)
+					if last {
+						return
 					}
-					next[ci] = append(next[ci], succ)
-				}
+					im, rm := commonMoves(n)
+					for i, m := range im {
+						sp, ok := n.Pos.Move(m)
+						if !ok {
+							continue
+						}
+						succ := &Node{Pos: sp, Turn: n.Turn.Opponent(), Ref: n.Ref.Make(rm[i]), Root: n.Root, Path: n.Path + " " + bridge.Text(m)}
+						c.Transitions.Add(1)
+						if edge != nil {
+							edge(n, m, rm[i], succ)
+						}
+						next[ci] = append(next[ci], succ)
+					}
+				})
 			}
 		})
 		var nf []*Node
@@ -182,22 +186,25 @@ func WalkFlat(c *harness.Check, gen func(emit func(p *ref.Pos)), visit func(n *N
 				hi = len(b)
 			}
 			for _, rp := range b[lo:hi] {
-				n := refNode(rp)
-				if visit != nil {
-					visit(n)
-				}
-				if edge == nil {
-					continue
-				}
-				im, rm := commonMoves(n)
-				for i, m := range im {
-					sp, ok := n.Pos.Move(m)
-					if !ok {
-						continue
+				rp := rp
+				c.Guard("panic", panicData(c), rp.FEN(0, 1), func() {
+					n := refNode(rp)
+					if visit != nil {
+						visit(n)
 					}
-					c.Transitions.Add(1)
-					edge(n, m, rm[i], &Node{Pos: sp, Turn: n.Turn.Opponent(), Ref: n.Ref.Make(rm[i]), Root: n.Root, Path: " " + bridge.Text(m)})
-				}
+					if edge == nil {
+						return
+					}
+					im, rm := commonMoves(n)
+					for i, m := range im {
+						sp, ok := n.Pos.Move(m)
+						if !ok {
+							continue
+						}
+						c.Transitions.Add(1)
+						edge(n, m, rm[i], &Node{Pos: sp, Turn: n.Turn.Opponent(), Ref: n.Ref.Make(rm[i]), Root: n.Root, Path: " " + bridge.Text(m)})
+					}
+				})
 			}
 		})
 	}
